@@ -72,7 +72,10 @@ func transitions(loc *time.Location) []int64 {
 	return out
 }
 
-func instantsFor(r interface{ Int63n(int64) int64; Intn(int) int }, spec model.IntervalSpec, loc *time.Location, trans []int64, n int) []int64 {
+func instantsFor(r interface {
+	Int63n(int64) int64
+	Intn(int) int
+}, spec model.IntervalSpec, loc *time.Location, trans []int64, n int) []int64 {
 	var ts []int64
 	lo := time.Date(1999, 12, 1, 0, 0, 0, 0, time.UTC).Unix()
 	hi := time.Date(2041, 1, 1, 0, 0, 0, 0, time.UTC).Unix()
